@@ -47,8 +47,10 @@ inductive Res where
 /-- Operations of a thread program. -/
 inductive Op where
   /-- `send_message_unchecked(m)`; `nested` runs inside `m.box_message()`;
-  `boxFails`: `box_message` returns `Err` afterwards. -/
-  | send (nested : List Op) (boxFails : Bool)
+  `boxFails`: `box_message` returns `Err` afterwards; `resend` (inert in the model): the
+  actor's handler, when it handles `m`, sends one more message to itself — in the model that
+  send is simply a send by another thread scheduled at that moment. -/
+  | send (nested : List Op) (boxFails : Bool) (resend : Bool := false)
   /-- `drain()` -/
   | drain
   /-- `send_message::<Wrong>(m)` on an untyped cell: rejected by the `TypeId` check. -/
@@ -184,7 +186,7 @@ def finish (s : Shared) (f : Frame) (r : Res) (rest : List Frame) : Shared × Li
 /-- Start `op` on top of `parent :: rest` (harness point `op.start`). -/
 def startOp (s : Shared) (op : Op) (parent : Frame) (rest : List Frame) : Shared × List Frame :=
   match op with
-  | .send nested bf =>
+  | .send nested bf _ =>
     ({ s with nextId := s.nextId + 1 },
       { pc := .sStatus, id := s.nextId, ops := nested, boxFails := bf } :: parent :: rest)
   | .drain => (s, { pc := .dClose } :: parent :: rest)
